@@ -228,9 +228,18 @@ func cmdCheck(args []string) int {
 	}
 	cd := &discharger{dir: work, seed: seed, timeoutMs: 2000, retryMs: 2000, par: 8}
 	cd.allCovers(coverJobs)
+	// a return site is unreachable (vacuous contract) only if every path to it is infeasible
 	var vacuous []string
+	reach := map[string]bool{}
 	for _, j := range coverJobs {
-		if j.o.res == "unsat" {
+		if j.o.res != "unsat" {
+			reach[j.o.name] = true
+		}
+	}
+	seenCover := map[string]bool{}
+	for _, j := range coverJobs {
+		if !reach[j.o.name] && !seenCover[j.o.name] {
+			seenCover[j.o.name] = true
 			vacuous = append(vacuous, j.o.name)
 		}
 	}
